@@ -210,7 +210,7 @@ def evaluate_in_zone(cell):
     sp = sp_for(slack, soap)
     if shape.get('_lowered'):
         # a private client built with a generous allowance that is then lowered to `slack` on its live configuration
-        sp = world.make_sp(TMP[0], top={'accepted_time_diff': 3600})
+        sp = world.make_sp(TMP[0], top={'accepted_time_diff': 3600}, **({'want_response_signed': False} if soap else {}))
         sp.config.accepted_time_diff = slack or 0
     out = []
     for dt in dts:
